@@ -21,7 +21,7 @@ theorem Cell.native_ne_eq (a b : Cell) (ha : a.isBool = false) (hb : b.isBool = 
   cases a <;> cases b <;>
     simp_all [Cell.native, Cell.numKey?, Cell.pyEq, Cell.isBool] <;> (subst h; simp_all [Ordering.then])
 
-theorem normList_cells (xs : List Cell) : normList (xs.map Val.cell) = xs.map Val.cell := by
+theorem normList_map_cell (xs : List Cell) : normList (xs.map Val.cell) = xs.map Val.cell := by
   induction xs with
   | nil => rfl
   | cons x xs ih => simp [normList, Val.norm, ih]
